@@ -55,7 +55,7 @@ def check(ctx):
         exhaustive_states += r.distinct
         sc.replay_behaviours(ctx, binp, path, "exhaustive4", roots, rstats, result_files=rfiles)
     path, n_sim, _ = sc.export_behaviours(ctx, "MC_StateJournal_sim.cfg", "walks", 900 if q else 3000,
-                                          simulate="num=%d" % (40 if q else 500), depth=20)
+                                          simulate="num=%d" % (30 if q else 500), depth=20)
     sc.replay_behaviours(ctx, binp, path, "walks", roots, rstats, result_files=rfiles)
     for line in open(path).readlines()[:1]:
         ctx.sample({"behaviour_from_TLC_replayed_on_real_state": sc.pretty(json.loads(line))})
@@ -68,7 +68,7 @@ def check(ctx):
 
     # 4. implementation -> model: seeded random histories over large universes, validated by Trace_StateJournal.tla
     demo_ok = sc.binding_demo(ctx, binp) if not ctx.violations else True
-    events, stats, how = sc.record(ctx, binp, 10 if q else 60, 450 if q else 650, "random")
+    events, stats, how = sc.record(ctx, binp, 8 if q else 60, 450 if q else 650, "random")
     accepted = 0
     if events is not None:
         accepted = sc.validate(ctx, events, stats, "random", how)
@@ -93,26 +93,36 @@ def check(ctx):
     ctx.cov["trace_events"] = len(events) if events else 0
     ctx.cov["trace_runs"] = len(stats) if stats else 0
     if stats:
-        for k in ("deletes", "recreates", "revertsAcrossDelete", "reverts", "zeroWrites", "listWrites", "commits"):
+        for k in ("deletes", "recreates", "revertsAcrossDelete", "reverts", "zeroWrites", "listWrites", "commits", "encodeStorageWrites",
+                  "logTransferRefundOps", "revertsDroppingLogs", "buildStorageTrie", "siblingCommits", "stateSwitches"):
             ctx.cov["trace_" + k] = sum(s[k] for s in stats)
         ctx.cov["trace_max_addresses"] = max(s["addresses"] for s in stats)
         ctx.cov["trace_max_keys_per_address"] = max(s["maxKeysPerAddr"] for s in stats)
     ctx.cov["trie"] = tstats.get("trie", {})
+    ctx.cov["independent_encoder"] = tstats.get("states", {})
+    for k in ("build_storage_trie_calls", "committed_leaf_checks", "side_journal_checks"):
+        ctx.cov["replay_" + k] = rstats.get(k, 0)
     ctx.cov["traces_validated_against_impl"] += accepted + rstats.get("behaviours_replayed", 0)
     tc = tstats.get("trie", {})
     ctx.cov["evaluations"] = (rstats.get("behaviours_replayed", 0) + (len(stats) if stats else 0) +
-                              sum(tc.get(k, 0) for k in ("contents_built", "transitions_in_memory", "sequence_states", "transitions_after_reload", "big_variants")))
+                              sum(tc.get(k, 0) for k in ("contents_built", "transitions_in_memory", "sequence_states", "transitions_after_reload", "big_variants")) +
+                              sum(tstats.get("states", {}).values()))
     ctx.cov["distinct_nontrivial"] = max(0, len(roots) - 1) + trace_roots + tstats.get("trie_distinct_contents", 0)
     ctx.cov["rule"] = (
         "evaluations = TLC-exported behaviours replayed on a real state.State + random-history runs + real-trie root comparisons. "
-        "Behaviour space (exhaustive part): MC_StateJournal with 2 addresses x 2 keys x storage values {0,1,2} (2 = raw RLP list), balance/"
+        "Behaviour space (exhaustive part): (wide) MC_StateJournal with 2 addresses x 2 keys x storage values {0,1,2} (2 = raw RLP list), balance/"
         "master/code in {0,1}, energy (0,t1)/(1,t1), 10 initial bases (absent / plain / storage / explicit empty storage), <= %d operations "
-        "out of SetBalance, SetEnergy, SetMaster, SetCode, SetStorage, Delete, NewCheckpoint (depth <= 3), RevertTo, Stage, Commit, Reopen: "
-        "ONE representative history for EVERY distinct abstract state (TLC BFS with VIEW excluding the history), prefixes merged; plus "
-        "random walks of 14 operations (TLC -simulate). distinct_nontrivial = number of distinct non-empty canonical contents whose real "
+        "out of SetBalance, SetEnergy, SetMaster, SetCode, SetStorage, Delete, NewCheckpoint (depth <= 3), RevertTo, Stage, Commit, Reopen and "
+        "(<= 3 operations) statedb AddLog, AddTransfer, AddRefund, Suicide; (narrow) 1 address x 2 keys x values {0,1}, 5 bases, <= %d operations "
+        "(write, stage, commit, reopen, write again ...): ONE representative history for EVERY distinct abstract state (TLC BFS with VIEW "
+        "excluding the history), prefixes merged; plus random walks of 14 operations (TLC -simulate). Chunks of 256 behaviours rotate through "
+        "dummy/real node cache x SetStorage/SetRawStorage/EncodeStorage x plain State/runtime-statedb; after every step all getters incl. "
+        "DecodeStorage, BuildStorageTrie (bijection with the predicted storage), statedb GetLogs/GetRefund/HasSuicided; after every Commit the "
+        "committed leaves and the storage trie named by the leaf metadata are read directly; every staged root, storage root and leaf is "
+        "recomputed from the content by the independent encoder of triecheck -states. distinct_nontrivial = number of distinct non-empty canonical contents whose real "
         "root was compared at a Stage (= distinct real state roots: the bijection content<->root is checked, counted from the driver's "
         "registry for replays and from the interned root names for traces) + distinct trie contents with >= 2 keys whose real root was "
-        "compared with the reference hash of Shape(content)." % (3 if q else 4))
+        "compared with the reference hash of Shape(content)." % (3 if q else 4, 5 if q else 6))
     ctx.cov["exhaustive"] = True
     ctx.cov["exhaustive_note"] = ("the TLC BFS configs terminated (journal: all states within the operation bound; trie keys9: ALL 3^9 contents "
                                   "and every Put/Del between them, i.e. unbounded sequences); behaviours beyond the bounds and the random "
@@ -120,6 +130,8 @@ def check(ctx):
     ctx.assumptions += [
         "blake2b/keccak are injective oracles: the root is modelled as the canonical content; the harness checks equal content <=> equal real root over everything it stages",
         "the 60-line reference Merkle-Patricia hasher (RLP, hex-prefix, blake2b-256) in harness/cmd/triecheck is trusted; it agrees with the real trie on the unchanged tree for all enumerated contents",
+        "the independent account-leaf encoder (RLP[balance, energy, blockTime, master, codeHash, storageRoot] over blake2b(address) / blake2b(key), explicit empty storage root) in harness/cmd/triecheck/states.go is trusted; it is applied to the small state universes of the replays, the large random histories rely on the content<->root bijection",
+        "BuildStorageTrie is only specified (and only called) for addresses not deleted in the calling State object; sibling State objects share nothing but the database",
         "integers of the specification are realized as fixed byte strings by the driver (addresses, keys, code blobs, scalar and raw-list storage values); getter results outside that alphabet decode to -1 and can never match",
         "balances in traces are <= 5e8 and times <= 4 so that CalcEnergy's product stays below 2^31 in TLC; energy growth is checked with EnergyGrowthRate = 5e9 (driver refuses to run otherwise)",
         "versions are unique per commit (major = commit counter / 4, minor = conflict number 0..3), as thor's (block number, conflicts) are",
